@@ -268,16 +268,23 @@ def run(ctx: Context):
             f = fnorm.edge_fact(n, lab)
             if f:
                 op, l, rr = f
+                new = {}
                 if op in ("truth", "false") and l in unk_forms:
-                    unk = 1 if op == "truth" else 2
+                    new["unk"] = 1 if op == "truth" else 2
                 if op in ("in", "not in") and l == VER and rr == FOUND:
-                    inf = 1 if op == "in" else 2
+                    new["inf"] = 1 if op == "in" else 2
                 if op in ("is", "is not", "==", "!=") and {l, rr} == {"None", VER}:
-                    nn = 2 if op in ("is", "==") else 1
+                    new["nn"] = 2 if op in ("is", "==") else 1
                 if op in ("truth", "false") and l == VER:
-                    nn = 1 if op == "truth" else 2
+                    new["nn"] = 1 if op == "truth" else 2
                 if op in ("truth", "false") and l == isdir_form:
-                    isd = 1 if op == "truth" else 2
+                    new["isd"] = 1 if op == "truth" else 2
+                # a path that contradicts a fact it has already observed is infeasible
+                cur = {"unk": unk, "inf": inf, "nn": nn, "isd": isd}
+                for k, v in new.items():
+                    if cur[k] and cur[k] != v and not (k == "inf" and fa):
+                        return None
+                unk, inf, nn, isd = (new.get("unk", unk), new.get("inf", inf), new.get("nn", nn), new.get("isd", isd))
             return (d, fa, da, fp, unk, inf, nn, isd)
         ends, escaped, visited, parent = _iteration_states(cfg, head, body_ids, (0,) * 8, step)
         r.count(len(visited))
@@ -581,8 +588,15 @@ def run(ctx: Context):
         r.require(isinstance(pv, (ast.List, ast.Tuple)) and not pv.elts, DT, DT.loc(sc),
                   "the root's path is %s, not the empty path" % (src(DT, pv) if pv is not None else "missing"))
         fv = dnorm.resolve(sn, a_found) if a_found is not None else None
+        if isinstance(fv, ast.Name):
+            # set literals / set([...]) are mutable containers, which the normaliser does not substitute
+            ds = dnorm.rd.get(sn.id, {}).get(fv.id, frozenset())
+            if len(ds) == 1 and min(ds) >= 0:
+                dv = assign_value(dcfg.nodes[min(ds)], fv.id)
+                if dv is not None:
+                    fv = dv
         seeded = fv is not None and (isinstance(fv, ast.Set) or (isinstance(fv, ast.Call) and call_tail(fv) == "set")) \
-            and any(isinstance(x, ast.Call) and dnorm.norm(sn, x) == "self.get_verify_cap()" for x in ast.walk(fv))
+            and any(isinstance(x, (ast.Call, ast.Name)) and dnorm.norm(sn, x) == "self.get_verify_cap()" for x in ast.walk(fv))
         r.require(seeded, DT, DT.loc(sc), "the found set handed to the walk (%s) is not seeded with the root's own verify "
                   "cap: a cycle back to the root visits the root twice" % (src(DT, fv) if fv is not None else "missing"))
 
@@ -598,6 +612,8 @@ def run(ctx: Context):
         c = apps[0]
         r.site(mw, c, "manifest entry")
         t = c.args[0] if c.args else None
+        if isinstance(t, ast.Name):
+            t = unique_defs(mw).get(t.id, t)
         ok = isinstance(t, ast.Tuple) and len(t.elts) == 2
         if ok:
             d0 = {x.id for x in ast.walk(t.elts[0]) if isinstance(x, ast.Name)} & {mn, mp}
